@@ -29,8 +29,8 @@ RULE = ("exhaustive part: every dataset (1..m rankings of R(n), not all empty) u
 EXHAUSTIVE = {"quick": False, "thorough": False}
 SCOPE = {"quick": "all 700 datasets n<=3, m<=2 x 7 schemes; 300 sampled datasets n<=5, m<=4 x 25 schemes; 400 random tables "
                   "n<=6 for _fill_dicts_copeland",
-         "thorough": "all datasets n<=3, m<=3 (18 275) and all with exactly 4 elements, m<=2 (20 072) x 7 schemes; 5000 "
-                     "sampled datasets n<=6, m<=5 x 25 schemes; 4000 random tables n<=7"}
+         "thorough": "all datasets n<=3, m<=3 (18 275) and all with exactly 4 elements, m<=2 (20 072) x 7 schemes; 25000 "
+                     "sampled datasets n<=6, m<=5 x 25 schemes; 20000 random tables n<=7"}
 CHUNK = 1
 TIMEOUT = 600
 
@@ -57,7 +57,7 @@ def gen_cases(tier, seed):
             yield {"kind": "pack", "first": idx, "datasets": pack}
             idx += len(pack)
     rng = random.Random(seed * 7919 + 13)
-    count = 300 if tier == "quick" else 5000
+    count = 300 if tier == "quick" else 25000
     for i in range(count):
         d = D.random_dataset(rng, 5 if tier == "quick" else 6, 4 if tier == "quick" else 5)
         if i % 7 == 3:
@@ -65,7 +65,7 @@ def gen_cases(tier, seed):
         if i % 11 == 5:
             d = d + [[]]
         yield {"kind": "sample", "dataset": d, "namekind": KINDS[i % len(KINDS)]}
-    count = 400 if tier == "quick" else 4000
+    count = 400 if tier == "quick" else 20000
     for i in range(count // 20):
         yield {"kind": "fill", "seed": rng.randrange(1 << 30), "count": 20, "nmax": 6 if tier == "quick" else 7}
 
